@@ -319,6 +319,21 @@ def build_templates():
     TT["uconcatenate"] = T(lambda A, p: unyt.uconcatenate([A["x"], A["y"]]), ("x", "y"), cat="func")
     TT["unorm"] = T(lambda A, p: unyt.unorm(A["x"]), ("x",), cat="func")
     TT["udot"] = T(lambda A, p: unyt.udot(A["x"], A["y"]), ("x", "y"), cat="func")
+    for hn in ("ucross", "uintersect1d", "uunion1d", "uvstack", "uhstack"):
+        hf = getattr(unyt, hn, None) or getattr(ua, hn)
+        if hn in ("uvstack", "uhstack"):
+            TT[hn] = T((lambda hf: lambda A, p: hf([A["x"], A["y"]]))(hf), ("x", "y"), cat="func")
+        else:
+            TT[hn] = T((lambda hf: lambda A, p: hf(A["x"], A["y"]))(hf), ("x", "y"), cat="func")
+    TT["assert_allclose_units"] = T(lambda A, p: __import__("unyt.testing").testing.assert_allclose_units(A["x"], A["y"]),
+                                    ("x", "y"), cat="func")
+    for mn in ("prod", "min", "max", "cumsum", "cumprod", "ptp", "round", "var", "argmax", "nonzero", "ravel", "flatten",
+               "tolist", "squeeze", "conj", "all", "any", "trace"):
+        if hasattr(ua.unyt_array, mn):
+            TT["m." + mn] = T((lambda mn: lambda A, p: getattr(A["x"], mn)())(mn), ("x",), cat="func")
+    TT["m.take"] = T(lambda A, p: A["x"].take(p["idx"]), ("x",), cat="func", params=("idx",))
+    TT["m.take_out"] = T(lambda A, p: A["x"].take(p["idx"], out=A["o"]), ("x", "o"), "o", "m.take", "func_out", ("idx",))
+    TT["m.clip"] = T(lambda A, p: A["x"].clip(A["y"], A["z"]), ("x", "y", "z"), cat="func")
     TT["m.dot"] = T(lambda A, p: A["x"].dot(A["y"]), ("x", "y"), cat="func")
     TT["m.dot_out"] = T(lambda A, p: A["x"].dot(A["y"], out=A["o"]), ("x", "y", "o"), "o", "m.dot", "func_out")
     TT["m.sum"] = T(lambda A, p: A["x"].sum(), ("x",), cat="func")
@@ -370,11 +385,59 @@ def build_templates():
                             ("x", "y", "o"), "o", None, "func_out")
     TT["np.interp"] = T(lambda A, p: np.interp(A["x"], A["y"], A["y"]), ("x", "y"), cat="func")
     # in-place array functions / item assignment
-    TT["np.copyto"] = T(lambda A, p: np.copyto(A["x"], A["y"]), ("x", "y"), "x", None, "ifunc")
-    TT["np.fill_diagonal"] = T(lambda A, p: np.fill_diagonal(A["x"], A["y"]), ("x", "y"), "x", None, "ifunc")
-    TT["np.place"] = T(lambda A, p: np.place(A["x"], np.asarray(A["x"]) > 0, A["y"]), ("x", "y"), "x", None, "ifunc")
-    TT["np.put"] = T(lambda A, p: np.put(A["x"], [0], A["y"]), ("x", "y"), "x", None, "ifunc")
-    TT["np.putmask"] = T(lambda A, p: np.putmask(A["x"], np.asarray(A["x"]) > 0, A["y"]), ("x", "y"), "x", None, "ifunc")
+    def _like(x, arr, units):
+        return unyt.unyt_quantity(arr, units) if np.ndim(arr) == 0 else unyt.unyt_array(arr, units)
+
+    def _val(x, y):
+        # the value argument as the target must receive it: converted with the COPYING api, never in place
+        if hasattr(y, "units") and y.units != x.units and not (y.units.is_dimensionless and float(y.units.base_value) == 1.0):
+            y = y.to(x.units)
+        return np.asarray(y)
+
+    def _exp_put(A, p):
+        e = np.array(np.asarray(A["x"]), copy=True)
+        np.put(e, [0], _val(A["x"], A["y"]))
+        return _like(A["x"], e, A["x"].units)
+
+    def _exp_putmask(A, p):
+        e = np.array(np.asarray(A["x"]), copy=True)
+        np.putmask(e, np.asarray(A["x"]) > 0, _val(A["x"], A["y"]))
+        return _like(A["x"], e, A["x"].units)
+
+    def _exp_place(A, p):
+        e = np.array(np.asarray(A["x"]), copy=True)
+        np.place(e, np.asarray(A["x"]) > 0, _val(A["x"], A["y"]))
+        return _like(A["x"], e, A["x"].units)
+
+    def _exp_filldiag(A, p):
+        e = np.array(np.asarray(A["x"]), copy=True)
+        np.fill_diagonal(e, _val(A["x"], A["y"]))
+        return _like(A["x"], e, A["x"].units)
+
+    def _exp_copyto(A, p):
+        # np.copyto(dst, src) makes dst BE src: its numbers and its units
+        e = np.array(np.asarray(A["x"]), copy=True)
+        np.copyto(e, np.asarray(A["y"]))
+        return _like(A["x"], e, A["y"].units)
+
+    def _exp_mask(A, p):
+        e = np.array(np.asarray(A["x"]), copy=True)
+        e[np.asarray(A["x"]) > 0] = _val(A["x"], A["y"])
+        return _like(A["x"], e, A["x"].units)
+
+    TT["np.put_expected"] = T(_exp_put, ("x", "y"), cat="copy")
+    TT["np.putmask_expected"] = T(_exp_putmask, ("x", "y"), cat="copy")
+    TT["np.place_expected"] = T(_exp_place, ("x", "y"), cat="copy")
+    TT["np.fill_diagonal_expected"] = T(_exp_filldiag, ("x", "y"), cat="copy")
+    TT["np.copyto_expected"] = T(_exp_copyto, ("x", "y"), cat="copy")
+    TT["setitem_mask_expected"] = T(_exp_mask, ("x", "y"), cat="copy")
+    TT["setitem_mask"] = T(lambda A, p: operator.setitem(A["x"], np.asarray(A["x"]) > 0, A["y"]), ("x", "y"), "x",
+                           "setitem_mask_expected", "ifunc")
+    TT["np.copyto"] = T(lambda A, p: np.copyto(A["x"], A["y"]), ("x", "y"), "x", "np.copyto_expected", "ifunc")
+    TT["np.fill_diagonal"] = T(lambda A, p: np.fill_diagonal(A["x"], A["y"]), ("x", "y"), "x", "np.fill_diagonal_expected", "ifunc")
+    TT["np.place"] = T(lambda A, p: np.place(A["x"], np.asarray(A["x"]) > 0, A["y"]), ("x", "y"), "x", "np.place_expected", "ifunc")
+    TT["np.put"] = T(lambda A, p: np.put(A["x"], [0], A["y"]), ("x", "y"), "x", "np.put_expected", "ifunc")
+    TT["np.putmask"] = T(lambda A, p: np.putmask(A["x"], np.asarray(A["x"]) > 0, A["y"]), ("x", "y"), "x", "np.putmask_expected", "ifunc")
     def _assigned(A, p):
         # what x[idx] = y must leave in x, computed with the copying API only: y.to(x.units) on a copy
         x, y = A["x"], A["y"]
@@ -902,7 +965,13 @@ class Sim18:
                 self.numpy_tainted.update(j for j, e2 in enumerate(w.ents) if e2.root == troot)
         # ---------------- oracle C
         if twin is not None and not raised and tgt_idx is not None:
-            self.oracle_c(op, t, twin, copies, p, tgt_ent, before["ents"][tgt_idx])
+            aliased = t.cat == "ifunc" and any(e.root == tgt_ent.root for r, e in ents.items() if r != t.target)
+            if aliased:
+                # np.put / place / putmask / item assignment whose VALUE shares the target's buffer: NumPy itself
+                # does not define the result (no overlap protection outside ufuncs), so there is nothing to expect
+                self.oracleC["skipped_value_aliases_target"] = self.oracleC.get("skipped_value_aliases_target", 0) + 1
+            else:
+                self.oracle_c(op, t, twin, copies, p, tgt_ent, before["ents"][tgt_idx])
         # ---------------- result of a copying call, then an in-place call on that result
         if not raised and not self.violations and (op["t"] in COPYING_RESULT or t.cat in ("op", "ufunc", "ufunc_red", "cmp")
                                                    or op["t"] in ("u_mul_arr", "u_rmul_scalar", "u_rdiv_scalar")):
